@@ -3,6 +3,7 @@ package main
 import (
 	"fmt"
 	"go/ast"
+	"go/token"
 	"go/types"
 	"sort"
 	"strings"
@@ -202,6 +203,79 @@ func (e *c17env) auth() {
 				atoms = append(atoms, mkFact(false, "true", &Term{K: 'r', Name: "res0", Pos: s.call.Lparen}, nil))
 				used = append(used, p.PosStr(s.call.Pos()))
 			}
+			// a boolean local that only ever holds the result of one of these checks
+			// (or false) stands for "the check succeeded" where it is tested
+			if len(atoms) > 0 {
+				okSite := map[token.Pos]bool{}
+				for _, a := range atoms {
+					okSite[a.A.Pos] = true
+				}
+				type flagInfo struct{ n, good int }
+				flags := map[types.Object]*flagInfo{}
+				note := func(l ast.Expr, r ast.Expr) {
+					id, isId := unparen(l).(*ast.Ident)
+					if !isId {
+						return
+					}
+					o := info.ObjectOf(id)
+					if o == nil || !types.Identical(o.Type(), types.Typ[types.Bool]) {
+						return
+					}
+					fi := flags[o]
+					if fi == nil {
+						fi = &flagInfo{}
+						flags[o] = fi
+					}
+					fi.n++
+					if r == nil {
+						fi.good++ // zero value
+						return
+					}
+					if tv := info.Types[r]; tv.Value != nil && tv.Value.String() == "false" {
+						fi.good++
+						return
+					}
+					if rc, isCall := unparen(r).(*ast.CallExpr); isCall && okSite[rc.Lparen] {
+						fi.good++
+					}
+				}
+				ast.Inspect(fs.Body(), func(m ast.Node) bool {
+					switch x := m.(type) {
+					case *ast.AssignStmt:
+						for i, l := range x.Lhs {
+							if len(x.Rhs) == len(x.Lhs) {
+								note(l, x.Rhs[i])
+							} else {
+								note(l, x.Rhs[0]) // result of a multi-value expression: not a check
+							}
+						}
+					case *ast.ValueSpec:
+						for i, nm := range x.Names {
+							if len(x.Values) == len(x.Names) {
+								note(nm, x.Values[i])
+							} else if len(x.Values) == 0 {
+								note(nm, nil)
+							} else {
+								note(nm, x.Values[0])
+							}
+						}
+					case *ast.UnaryExpr:
+						if x.Op == token.AND {
+							if id, isId := unparen(x.X).(*ast.Ident); isId {
+								if fi := flags[info.ObjectOf(id)]; fi != nil {
+									fi.n += 1000
+								}
+							}
+						}
+					}
+					return true
+				})
+				for o, fi := range flags {
+					if fi.n == fi.good && fi.n > 0 {
+						atoms = append(atoms, mkFact(false, "true", TVar(o), nil))
+					}
+				}
+			}
 			if len(atoms) == 0 {
 				c.Bad("R17.1", key, call.Pos(), "no authentication check for the group this call acts on (%s) exists in %s", termStr(want), fs.Name)
 				return true
@@ -357,15 +431,19 @@ func (e *c17env) isAdmin() {
 			continue
 		}
 		tv := info.Types[ret.Results[0]]
-		if tv.Value == nil || tv.Value.String() != "true" {
-			if tv.Value == nil {
-				c.Bad("R17.2", k.key("return of a computed value"), ret.Pos(), "isAdminOrExplicitPassword returns a non-constant: the accepted credentials cannot be enumerated")
-			}
+		if tv.Value != nil && tv.Value.String() != "true" {
 			continue
 		}
 		st, _ := ff.At(ret)
 		if st == nil {
 			continue
+		}
+		if tv.Value == nil {
+			// `return E`: true is returned exactly when E holds
+			st = ff.assume(st, ret.Results[0], true)
+			if st == nil || contradictory(st) {
+				continue
+			}
 		}
 		// which success site dominates?
 		kind := ""
@@ -560,6 +638,12 @@ func (e *c17env) sanitisers() {
 				if rt == nil || st == nil {
 					bad = append(bad, p.PosStr(ret.Pos()))
 					continue
+				}
+				if _, isAddr := unparen(ret.Results[0]).(*ast.UnaryExpr); !isAddr {
+					// a pointer variable: the object it was set to point to
+					if pt := st.PointeeOf(rt); pt != nil {
+						rt = pt
+					}
 				}
 				ft := TField(rt, sf)
 				cleared := st.HasFact(mkFact(true, "eq", ft, TNil()))
